@@ -328,7 +328,45 @@ fn op_rt1(rest: &str) -> Option<String> {
         Ok(h) => h.header == text && h.to_string() == text,
         Err(_) => false,
     };
-    Some(format!("text={} len={} b={} s={} fh={} fa={} same={}", hex(text.as_bytes()), text.len(), b, s, fh, fa, b01(hdr_same)))
+    // A format spec handed to `Display` may be ignored (as the crate does) or applied to the line
+    // as a whole (padding / truncation of the complete text, as `str` does) - both leave `{}` and
+    // `to_string()` alone and neither is pinned. What no reading of C08 allows is a spec leaking
+    // into the *fields* (signed or zero-padded ports, cut addresses): that is no longer the line
+    // of this value.
+    let whole = |out: &str, width: usize, left: bool, prec: Option<usize>| -> bool {
+        if out == text {
+            return true;
+        }
+        let cut: String = match prec {
+            Some(p) => text.chars().take(p).collect(),
+            None => text.clone(),
+        };
+        let n = cut.chars().count();
+        if n >= width {
+            return out == cut;
+        }
+        let pad = " ".repeat(width - n);
+        out == format!("{}{}", cut, pad) || out == format!("{}{}", pad, cut) || (left && out == format!("{}{}", cut, pad))
+    };
+    let spec = whole(&format!("{:>120}", a), 120, false, None)
+        && whole(&format!("{:<120}", a), 120, true, None)
+        && whole(&format!("{:5}", a), 5, true, None)
+        && whole(&format!("{:.7}", a), 0, true, Some(7))
+        && whole(&format!("{:.20}", a), 0, true, Some(20))
+        && format!("{:+}", a) == text
+        && format!("{:05}", a).trim_start_matches('0') == text.trim_start_matches('0')
+        && format!("{:#}", a) == text;
+    Some(format!(
+        "text={} len={} b={} s={} fh={} fa={} same={} spec={}",
+        hex(text.as_bytes()),
+        text.len(),
+        b,
+        s,
+        fh,
+        fa,
+        b01(hdr_same),
+        b01(spec)
+    ))
 }
 
 // ---------------------------------------------------------------- v2
